@@ -107,10 +107,6 @@ def run(run_, pkg, tier):
         # iteration-wise commutation additionally needs: poses change only through the (equivariant) boxplus update of the
         # Gauss-Newton step, and the run stops by the frame-invariant chi^2 criterion only
         from .. import optim_rules
-        oa = optim_rules.analyse(pkg)
-        n = 0
-        for f in oa.findings:
-            if f.rule.startswith(("C03-d", "C12-T2")):
-                n += 1
-                run_.check(f.ok, "C07-structure/" + f.key, "C07-structure-frame-invariant-iteration", f.what, where=f.where)
-        run_.floor("C07 structural rule instances", n, 12)
+        n = optim_rules.optimize_verdicts(run_, pkg, "C07", lambda f: ("C07-structure/" + f.key, "C07-structure-frame-invariant-iteration")
+                                          if f.rule.startswith(("C03-d", "C12-T2")) else None, rule_sem="C07-structure-frame-invariant-iteration")
+        run_.floor("C07 structural rule instances", n, 10)
